@@ -19,7 +19,7 @@ META = {
     ),
     "anchors": ["abelian_core.AbelianArray.from_blocks", "abelian_core.AbelianArray.from_fill_fn", "abelian_core.AbelianArray.from_dense", "abelian_core.AbelianArray.to_dense", "fermionic_core.FermionicArray.to_dense", "utils.from_dense", "abelian_core.AbelianArray.random"],
     "floors": {
-        "quick": {"evaluations": 8000, "distinct_nontrivial": 1200, "tables": {"ctor/plain": 800, "ctor/from_blocks": 800, "ctor/from_fill_fn": 800, "ctor/from_dense": 800, "ctor/utils.from_dense": 300, "ctor/random": 300, "roundtrip/to_dense-from_dense": 500, "roundtrip/projection": 800, "kind/generic_str": 300, "kind/generic_obj": 300, "kind/static": 800, "feature/index-from-unsorted-pairs": 300}},
+        "quick": {"evaluations": 8000, "distinct_nontrivial": 1200, "tables": {"ctor/plain": 800, "ctor/from_blocks": 800, "ctor/from_fill_fn": 800, "ctor/from_dense": 800, "ctor/utils.from_dense": 300, "ctor/random": 300, "roundtrip/to_dense-from_dense": 500, "roundtrip/projection": 800, "kind/generic_str": 300, "kind/generic_obj": 300, "kind/static": 800, "feature/index-from-unsorted-pairs": 300, "history/hash-twin-all": 300, "history/hash-twin-one": 300, "history/one-label": 300}},
         "thorough": {"evaluations": 250000, "distinct_nontrivial": 30000},
     },
     "wall": {"quick": 100, "thorough": 1500},
@@ -204,19 +204,25 @@ def embed_blocks(blocks, ref):
     return out
 
 
-def projection_case(ctx, rng):
-    """from_dense on an arbitrary dense array with unsorted interleaved labels, then to_dense."""
+def projection_case(ctx, rng, given=None):
+    """from_dense on an arbitrary dense array with unsorted interleaved labels, then to_dense.
+    -> the labeling used (so that a history of sibling labelings can follow it)"""
     sr = ctx.sr
-    sym = rng.choice(gen.SYMS5)
-    ferm = rng.random() < 0.4
-    nd = rng.randint(1, 3)
-    labels = []
-    for _ in range(nd):
-        n = rng.randint(1, 5)
-        pool = rng.sample(gen.POOL[sym], rng.randint(1, min(3, len(gen.POOL[sym]))))
-        labels.append([rng.choice(pool) for _ in range(n)])
-    duals = [rng.random() < 0.5 for _ in range(nd)]
+    if given is not None:
+        sym, ferm, labels, duals = given
+        nd = len(labels)
+    else:
+        sym = rng.choice(gen.SYMS5)
+        ferm = rng.random() < 0.4
+        nd = rng.randint(1, 3)
+        labels = []
+        for _ in range(nd):
+            n = rng.randint(1, 5)
+            pool = rng.sample(gen.POOL[sym], rng.randint(1, min(3, len(gen.POOL[sym]))))
+            labels.append([rng.choice(pool) for _ in range(n)])
+        duals = [rng.random() < 0.5 for _ in range(nd)]
     shape = [len(l) for l in labels]
+    spec = (sym, ferm, labels, duals)
     cplx = rng.random() < 0.3
     npr = np.random.default_rng(rng.getrandbits(60))
     D = npr.integers(1, 9, size=shape).astype(float)
@@ -259,36 +265,107 @@ def projection_case(ctx, rng):
     if not o.ok:
         if inv == "raise" and outside_nonzero and isinstance(o.exc, ValueError):
             ctx.count("refusal", "invalid_sectors=raise")
-            return
+            return spec
         mech = "from_dense-ignores-symmetry-argument" if kind != "static" else f"from_dense-raises-{o.excname}"
         ctx.violation(mech, f"from_dense raised {o.exc!r}", w)
-        return
+        return spec
     if inv == "raise" and outside_nonzero:
         ctx.violation("invalid_sectors-raise-ignored", "non-zero elements outside the valid sectors were accepted with invalid_sectors='raise'", w)
-        return
+        return spec
     x = o.value
     errs = audit(x)
     if errs:
         ctx.violation("from_dense-invalid-array", str(errs[:2]), w)
-        return
+        return spec
     want_tables = [{c: l.count(c) for c in sorted(set(l))} for l in labels]
     if [dict(ix.chargemap) for ix in x.indices] != want_tables or [bool(ix.dual) for ix in x.indices] != [bool(d) for d in duals] or x.charge != charge:
         ctx.violation("from_dense-structure", f"tables {[dict(ix.chargemap) for ix in x.indices]} / directions / charge differ from the labeling", w)
-        return
+        return spec
     if not np.array_equal(embed(x), exp):
         ctx.violation("from_dense-projection", "blocks are not the projection of the dense array onto the charge-conserving sectors, sorted by charge", w)
-        return
+        return spec
     o2 = ctx.call(x.to_dense)
     ctx.evaluated()
     if not o2.ok:
         ctx.violation(f"to_dense-raises-{o2.excname}", repr(o2.exc), w)
-        return
+        return spec
     if np.asarray(o2.value).shape != exp.shape or not np.array_equal(np.asarray(o2.value), exp):
         ctx.violation("to_dense-projection", "to_dense(from_dense(d)) is not the sorted projection of d", w)
-        return
+        return spec
     if nd >= 2 and unsorted and outside_nonzero and np.any(exp != 0):
         ctx.nontrivial(("proj", kind, sym, tuple(map(tuple, labels)), tuple(duals), repr(charge)))
         ctx.sample({k: w[k] for k in ("symmetry", "class", "labels", "duals", "charge", "invalid_sectors")}, limit=2)
+    return spec
+
+
+HASH_TWINS = {-1: -2, -2: -1}
+
+
+def sibling_labelings(rng, sym, labels):
+    """Labelings of the same shape that differ from `labels` as little as possible, including
+    ones whose Python hash() is identical (hash(-1) == hash(-2))."""
+    out = []
+
+    def tw(c):
+        if isinstance(c, tuple):
+            return tuple(HASH_TWINS.get(v, v) for v in c)
+        return HASH_TWINS.get(c, c)
+
+    valid = (lambda c: True) if sym in ("U1", "U1U1") else (lambda c: False)
+    # (a) -1 <-> -2 at every / at one position
+    if sym in ("U1", "U1U1"):
+        l2 = [[tw(c) for c in l] for l in labels]
+        if l2 != labels:
+            out.append(("hash-twin-all", l2))
+        pos = [(k, i) for k, l in enumerate(labels) for i, c in enumerate(l) if tw(c) != c]
+        if pos:
+            k, i = rng.choice(pos)
+            l3 = [list(l) for l in labels]
+            l3[k][i] = tw(l3[k][i])
+            out.append(("hash-twin-one", l3))
+    # (b) one position gets another charge
+    k = rng.randrange(len(labels)) if labels else None
+    if k is not None and labels[k]:
+        i = rng.randrange(len(labels[k]))
+        l4 = [list(l) for l in labels]
+        l4[k][i] = rng.choice([c for c in gen.POOL[sym] if c != l4[k][i]])
+        out.append(("one-label", l4))
+        # (c) two positions of one axis swapped
+        if len(labels[k]) >= 2:
+            i, j = rng.sample(range(len(labels[k])), 2)
+            l5 = [list(l) for l in labels]
+            l5[k][i], l5[k][j] = l5[k][j], l5[k][i]
+            out.append(("swapped", l5))
+    out.append(("same", [list(l) for l in labels]))
+    return out
+
+
+def history_case(ctx, rng):
+    """Consecutive conversions with near-identical labelings: what an earlier conversion did
+    must not leak into the next one."""
+    sym = rng.choice(["U1", "U1", "U1U1", "U1U1", "Z2", "Z4", "Z2Z2"])
+    ferm = rng.random() < 0.3
+    nd = rng.randint(1, 3)
+    labels = []
+    for _ in range(nd):
+        n = rng.randint(1, 5)
+        pool = [c for c in gen.POOL[sym]]
+        if sym == "U1":
+            pool = rng.choice([[-1, -2, 0], [-1, -2], [-2, -1, 1]])
+        elif sym == "U1U1":
+            pool = rng.choice([[(-1, 0), (-2, 0), (0, 0)], [(0, -1), (0, -2), (-1, -1), (-2, -2)], [(-1, 1), (-2, 1), (0, 1)]])
+        else:
+            pool = rng.sample(pool, rng.randint(1, min(3, len(pool))))
+        labels.append([rng.choice(pool) for _ in range(n)])
+    duals = [rng.random() < 0.5 for _ in range(nd)]
+    sibs = sibling_labelings(rng, sym, labels)
+    rng.shuffle(sibs)
+    seq = [("base", labels)] + sibs[: rng.randint(1, 3)]
+    if rng.random() < 0.5:
+        seq.append(("base-again", labels))
+    for tag, lab in seq:
+        projection_case(ctx, rng, (sym, ferm, lab, duals))
+        ctx.count("history", tag)
 
 
 def run(ctx):
@@ -296,3 +373,5 @@ def run(ctx):
         ctx.run_case(spec_case, ctx, rng)
     for _, rng in ctx.cases("projection", ctx.budget(150000, 3000000)):
         ctx.run_case(projection_case, ctx, rng)
+    for _, rng in ctx.cases("history", ctx.budget(12000, 250000)):
+        ctx.run_case(history_case, ctx, rng)
